@@ -31,6 +31,9 @@ func New(src Source) *Rand {
 }
 
 func (r *Rand) Intn(n int) int {
+	if n <= 0 {
+		panic("invalid argument to Intn")
+	}
 	if h := IntnHook; h != nil {
 		return h(r, n)
 	}
@@ -44,7 +47,57 @@ func (r *Rand) Int31() int32 {
 	return r.r.Int31()
 }
 
-func (r *Rand) Int63() int64     { return r.r.Int63() }
-func (r *Rand) Uint32() uint32   { return r.r.Uint32() }
-func (r *Rand) Int() int         { return r.r.Int() }
-func (r *Rand) Float64() float64 { return r.r.Float64() }
+func (r *Rand) Int63() int64                       { return r.r.Int63() }
+func (r *Rand) Uint32() uint32                     { return r.r.Uint32() }
+func (r *Rand) Uint64() uint64                     { return r.r.Uint64() }
+func (r *Rand) Int() int                           { return r.r.Int() }
+func (r *Rand) Float64() float64                   { return r.r.Float64() }
+func (r *Rand) Float32() float32                   { return r.r.Float32() }
+func (r *Rand) Seed(s int64)                       { r.r.Seed(s) }
+func (r *Rand) Perm(n int) []int                   { return r.r.Perm(n) }
+func (r *Rand) Shuffle(n int, swap func(i, j int)) { r.r.Shuffle(n, swap) }
+func (r *Rand) NormFloat64() float64               { return r.r.NormFloat64() }
+func (r *Rand) ExpFloat64() float64                { return r.r.ExpFloat64() }
+func (r *Rand) Read(p []byte) (int, error)         { return r.r.Read(p) }
+
+// bounded draws validate their argument exactly as math/rand does and then go through IntnHook
+func (r *Rand) Int63n(n int64) int64 {
+	if n <= 0 {
+		panic("invalid argument to Int63n")
+	}
+	if h := IntnHook; h != nil {
+		m := n
+		if m > 1<<31-1 {
+			m = 1<<31 - 1
+		}
+		return int64(h(r, int(m)))
+	}
+	return r.r.Int63n(n)
+}
+
+func (r *Rand) Int31n(n int32) int32 {
+	if n <= 0 {
+		panic("invalid argument to Int31n")
+	}
+	if h := IntnHook; h != nil {
+		return int32(h(r, int(n)))
+	}
+	return r.r.Int31n(n)
+}
+
+// package-level generator
+var global = New(NewSource(1))
+
+func Seed(s int64)                       { global.Seed(s) }
+func Intn(n int) int                     { return global.Intn(n) }
+func Int() int                           { return global.Int() }
+func Int31() int32                       { return global.Int31() }
+func Int31n(n int32) int32               { return global.Int31n(n) }
+func Int63() int64                       { return global.Int63() }
+func Int63n(n int64) int64               { return global.Int63n(n) }
+func Uint32() uint32                     { return global.Uint32() }
+func Uint64() uint64                     { return global.Uint64() }
+func Float64() float64                   { return global.Float64() }
+func Float32() float32                   { return global.Float32() }
+func Perm(n int) []int                   { return global.Perm(n) }
+func Shuffle(n int, swap func(i, j int)) { global.Shuffle(n, swap) }
